@@ -14,7 +14,8 @@ import (
 // HashMain prints, for the first n seeded cases of a property, the hash of the
 // canonical event log of everything its check ran. It is the child side of the
 // determinism self-test.
-func HashMain(t *testing.T, p *Prop, seed uint64, tier string, n int) int {
+// race selects the cases of the -race shard (RaceGen) where a property has its own.
+func HashMain(t *testing.T, p *Prop, seed uint64, tier string, n int, race bool) int {
 	if err := CheckEncodableTable(); err != nil {
 		fmt.Fprintln(os.Stderr, "HARNESS-ERROR:", err)
 		return 2
@@ -26,7 +27,7 @@ func HashMain(t *testing.T, p *Prop, seed uint64, tier string, n int) int {
 		if idx >= n {
 			return false
 		}
-		c := MakeCase(p, seed, tier, CaseRef{Index: uint64(idx)})
+		c := MakeCase(p, seed, tier, CaseRef{Index: uint64(idx), Race: race})
 		hx := NewExec()
 		hx.HashOn = true
 		viol, _ := p.Check(hx, c)
@@ -89,7 +90,12 @@ func selfTest(t *testing.T, root string, args []string) int {
 				defer wg.Done()
 				sem <- struct{}{}
 				defer func() { <-sem }()
-				cmd := exec.Command(selfExe(c.race), "-test.run", "^TestEntry$", "-test.timeout", "0", "hash", id, fmt.Sprint(n))
+				args := []string{"-test.run", "^TestEntry$", "-test.timeout", "0", "hash", id, fmt.Sprint(n)}
+				if c.race && p.RaceGen != nil {
+					// the -race configurations run what the race shard runs
+					args = append(args, "race")
+				}
+				cmd := exec.Command(selfExe(c.race), args...)
 				cmd.Env = append(os.Environ(), "GOMAXPROCS="+c.procs, "VERIF_SEED=1")
 				if c.race {
 					cmd.Env = append(cmd.Env, "GORACE=log_path=/dev/null halt_on_error=0")
@@ -112,9 +118,17 @@ func selfTest(t *testing.T, root string, args []string) int {
 		mu.Lock()
 		ok := true
 		for ci := 1; ci < len(outs); ci++ {
-			if outs[ci] != outs[0] {
+			base := 0
+			if cfgs[ci].race && p.RaceGen != nil {
+				// own case set: the race configurations are compared with each other
+				base = len(cfgs) - 2
+				if ci == base {
+					continue
+				}
+			}
+			if outs[ci] != outs[base] {
 				ok = false
-				a, b := strings.Split(outs[0], "\n"), strings.Split(outs[ci], "\n")
+				a, b := strings.Split(outs[base], "\n"), strings.Split(outs[ci], "\n")
 				for k := 0; k < len(a) && k < len(b); k++ {
 					if a[k] != b[k] {
 						fmt.Printf("DETERMINISM MISMATCH %s: GOMAXPROCS=%s race=%v rep=%d: %q vs %q\n", id, cfgs[ci].procs, cfgs[ci].race, cfgs[ci].rep, a[k], b[k])
